@@ -44,7 +44,9 @@ def run(tier, opts):
         summ = common.collect_replay_results(ck, outp, f"[{b}] real vector_commitment_decommit disagrees with the spec",
                                              lambda r: f"replay:{b}:" + json.dumps([r["case"]["height"], r["case"]["nvf"], r["case"]["idx"], r["case"]["corrupt"]]))
         total += summ["cases"]
-        common.validate_trace(ck, "Trace_Vector", trace, f"[{b}] vector decommitment", f"trace:{b}")
+        ok = common.validate_trace(ck, "Trace_Vector", trace, f"[{b}] vector decommitment", f"trace:{b}")
+        if ok and (opts.get("selftest") or tier == "thorough") and b == builds[0]:
+            common.selftest_trace(ck, "Trace_Vector", trace, [("vc.node", "out"), ("vc.node", "l"), ("vc.node", "friendly"), ("vc.node", "auth_pos"), ("vc.end", "computed"), ("vc.end", "ok"), ("vc.result", "ok"), ("vc.node", None), ("vc.begin", "root")])
     for c in cases:
         ck.case(json.dumps([c["height"], c["nvf"], c["idx"], c["corrupt"]]), c["height"] >= 1)
     ck.extra["behaviours_replayed_on_impl"] = total
